@@ -116,9 +116,21 @@ def IterSt.pull (s : IterSt) : Step IterSt :=
     match nextIncluded s.included s.ignored s.src with
     | none => .error
     | some (nx, src') =>
-      if (match nx with | some g => s.seen.contains g.name | none => false) then .error
+      if (match nx with | some g => s.seen.contains g.name || g.name == name | none => false) then .error
       else IterSt.serve { s with next := nx, src := src', seen := s.seen ++ [name] }
   | .afterEmpty name => IterSt.serve { s with seen := s.seen ++ [name] }
+
+
+/-- the rule shipped before the repair f720bbc: a group repeating the chromosome that was just handed out is not noticed -/
+def IterSt.pullOld (s : IterSt) : Step IterSt :=
+  match s.phase with
+  | .afterGroup name =>
+    match nextIncluded s.included s.ignored s.src with
+    | none => .error
+    | some (nx, src') =>
+      if (match nx with | some g => s.seen.contains g.name | none => false) then .error
+      else IterSt.serve { s with next := nx, src := src', seen := s.seen ++ [name] }
+  | _ => s.pull
 
 /-! ## `SynchedStream.__iter__` -/
 
